@@ -69,7 +69,7 @@ def extract(unit_name, src_rel, cfg, roots, outdir, extra_flags=None):
     """Lower the given roots from /repo/<src_rel>; returns the Lowering object.
     Writes <outdir>/<unit>_types.h, _protos.h, _bodies.c."""
     os.makedirs(outdir, exist_ok=True)
-    src = os.path.join(REPO, src_rel)
+    src = src_rel if os.path.isabs(src_rel) else os.path.join(REPO, src_rel)
     if not os.path.exists(src):
         raise Undecided('extraction: %s does not exist' % src)
     try:
@@ -86,6 +86,22 @@ def extract(unit_name, src_rel, cfg, roots, outdir, extra_flags=None):
         f.write(hdr + '#include "common.h"\n#include "%s_types.h"\n#include "%s_protos.h"\n\n' % (unit_name, unit_name)
                 + cfg.get('bodies_prelude', '') + lw.emit_bodies())
     return lw
+
+
+def gen_frontend(outdir):
+    """Regenerate parser.cc/parser.hh (bison) and lexer.cc/lexer.hh (flex) from /repo's working tree,
+    with the commands the repository's build uses."""
+    os.makedirs(outdir, exist_ok=True)
+    rc, out, err, _ = run(['bison', '-d', '-o', os.path.join(outdir, 'parser.cc'), 'parser.yy'],
+                          cwd=os.path.join(REPO, 'libzwerg'), timeout=120)
+    if rc != 0:
+        raise Undecided('bison failed: ' + (err or out)[-400:])
+    rc, out, err, _ = run(['flex', '--header-file=' + os.path.join(outdir, 'lexer.hh'),
+                           '-o' + os.path.join(outdir, 'lexer.cc'), 'lexer.ll'],
+                          cwd=os.path.join(REPO, 'libzwerg'), timeout=120)
+    if rc != 0:
+        raise Undecided('flex failed: ' + (err or out)[-400:])
+    return outdir
 
 
 # --------------------------------------------------------------------------
